@@ -24,13 +24,14 @@ import (
 )
 
 // only be used when NewRequiredFieldNotSetException
-func lookupFieldName(rt reflect.Type, offset uintptr) string {
+func lookupFieldName(rt reflect.Type, offset uintptr, ft reflect.Type) string {
 	for rt.Kind() == reflect.Ptr {
 		rt = rt.Elem()
 	}
 	for i := 0; i < rt.NumField(); i++ {
 		f := rt.Field(i)
-		if f.Offset == offset {
+		// a zero-size field shares its offset with the field that follows it: match the type too
+		if f.Offset == offset && f.Type == ft {
 			return f.Name
 		}
 	}
